@@ -37,16 +37,51 @@ def get_engine(prop):
 # --------------------------------------------------------------------------- run
 
 
-def execute_script(engine, script):
+class RunTimeout(BaseException):
+    """The library did not return within the per-run wall-clock limit."""
+
+
+RUN_LIMIT_S = float(os.environ.get("UPSIM_RUN_LIMIT_S", "6"))
+
+
+def _alarm(signum, frame):
+    raise RunTimeout()
+
+
+def execute_script(engine, script, limit_s=None, attempts=2):
     """One execution of a script in a fresh environment.  Pure function of the
-    script, the code under /repo and PYTHONHASHSEED."""
-    ctx = Ctx(engine.prop)
-    ctx.ev("seed", script.get("seed"), "profile", script.get("profile"))
-    nontrivial = False
-    try:
-        nontrivial = engine.execute(script, ctx)
-    except StopRun:
-        pass
+    script, the code under /repo and PYTHONHASHSEED.
+
+    A run normally takes milliseconds; one that does not return within limit_s seconds
+    (a non-terminating library call) is executed once more with twice the limit and, if it
+    still hangs, reported as a violation of `<prop>.terminates` at the operation it hangs in."""
+    import signal
+
+    limit_s = limit_s or RUN_LIMIT_S
+    for attempt in range(1, attempts + 1):
+        ctx = Ctx(engine.prop)
+        ctx.ev("seed", script.get("seed"), "profile", script.get("profile"))
+        nontrivial = False
+        old = signal.signal(signal.SIGALRM, _alarm)
+        signal.setitimer(signal.ITIMER_REAL, limit_s * attempt)
+        try:
+            nontrivial = engine.execute(script, ctx)
+            break
+        except StopRun:
+            break
+        except RunTimeout:
+            if attempt == attempts:
+                ctx.violation = {
+                    "oracle": f"{engine.prop}.terminates",
+                    "op": ctx.op_index,
+                    "cls": "timeout",
+                    "detail": "the library did not return from this operation within the per-run time limit "
+                              "(tried twice); a run normally takes milliseconds",
+                }
+                ctx.ev("VIOLATION", f"{engine.prop}.terminates", "timeout")
+        finally:
+            signal.setitimer(signal.ITIMER_REAL, 0)
+            signal.signal(signal.SIGALRM, old)
     return ctx.result(nontrivial)
 
 
@@ -97,6 +132,8 @@ class Minimiser:
         self.execs = 0
         self.max_exec = max_exec
         self.deadline = time.monotonic() + max_s
+        # candidates of a hanging run hang too: keep them cheap
+        self.limit_s = 2.0 if target and target[1] == "timeout" else None
 
     def out_of_budget(self):
         return self.execs >= self.max_exec or time.monotonic() > self.deadline
@@ -106,7 +143,7 @@ class Minimiser:
             return False
         self.execs += 1
         try:
-            res = execute_script(self.engine, cand)
+            res = execute_script(self.engine, cand, limit_s=self.limit_s, attempts=1 if self.limit_s else 2)
         except HarnessError:
             return False
         except Exception:
@@ -334,6 +371,12 @@ def worker_main(args):
                 else:
                     agg.setdefault("more_violations", 0)
                     agg["more_violations"] += 1
+                if v["cls"] == "timeout":
+                    # every further hanging run would cost the full time limit: stop here
+                    agg["truncated"] = True
+                    agg["stopped_after_timeout"] = True
+                    r = args["nruns"]
+                    break
         agg["runs"] += 1
         r += W
     faulthandler.cancel_dump_traceback_later()
@@ -495,8 +538,13 @@ def run_batch(prop, tier, nruns=None, budget_s=None, workers=None, profile=None,
     seen = set()
     n_new = 0
     n_known = 0
+    verified = set()
     for v in sorted(violations, key=lambda v: v["seed"]):
         key = (v["violation"]["oracle"], v["violation"]["cls"])
+        if key in verified:
+            # one replay per signature class is verified in a fresh interpreter
+            continue
+        verified.add(key)
         env = dict(os.environ, PYTHONHASHSEED=str(v["hashseed"]), UPSIM_NO_REEXEC="1",
                    PYTHONWARNINGS="ignore")
         p = subprocess.run(
